@@ -35,6 +35,9 @@ import (
 	"github.com/KevoDB/kevo/pkg/common/iterator/filtered"
 	"github.com/KevoDB/kevo/pkg/engine"
 	"github.com/KevoDB/kevo/pkg/engine/interfaces"
+	engiter "github.com/KevoDB/kevo/pkg/engine/iterator"
+	"github.com/KevoDB/kevo/pkg/memtable"
+	"github.com/KevoDB/kevo/pkg/sstable"
 	"github.com/KevoDB/kevo/pkg/verifhook"
 	"github.com/KevoDB/kevo/pkg/wal"
 )
@@ -112,17 +115,54 @@ func runC05(c *Case, out func(string)) {
 	defer os.RemoveAll(dir)
 	memsize, _ := strconv.ParseInt(hdrVal(c.Hdr, "memsize", "4096"), 10, 64)
 	maxmem, _ := strconv.Atoi(hdrVal(c.Hdr, "maxmem", "1000"))
-	if err := writeManifest(dir, memsize, maxmem, nil); err != nil {
-		out("IMPL-ERROR manifest " + err.Error())
-		return
+	stackMode := hdrVal(c.Hdr, "stack", "0") == "1"
+	var e *engine.EngineFacade
+	var err error
+	var getIter func() (iterator.Iterator, error)
+	var getRange func(lo, hi []byte) (iterator.Iterator, error)
+	var layerStats func() (nonEmpty, tombstones, multiLayerKeys int)
+	var stack *c05Stack
+	if !stackMode {
+		if err := writeManifest(dir, memsize, maxmem, nil); err != nil {
+			out("IMPL-ERROR manifest " + err.Error())
+			return
+		}
+		holdBackground()
+		e, err = openEngine(dir)
+		if err != nil {
+			out("IMPL-ERROR open " + err.Error())
+			return
+		}
+		defer func() { e.Close() }()
+		getIter = func() (iterator.Iterator, error) { return e.GetIterator() }
+		getRange = func(lo, hi []byte) (iterator.Iterator, error) { return e.GetRangeIterator(lo, hi) }
+		layerStats = func() (int, int, int) {
+			n, tomb := 0, 0
+			seen := map[string]int{}
+			for _, l := range e.VerifStorage().VerifLayers() {
+				if len(l.Entries) > 0 {
+					n++
+				}
+				ks := map[string]bool{}
+				for _, en := range l.Entries {
+					ks[string(en.Key)] = true
+					if en.Tombstone {
+						tomb++
+					}
+				}
+				for k := range ks {
+					seen[k]++
+				}
+			}
+			multi := 0
+			for _, cnt := range seen {
+				if cnt > 1 {
+					multi++
+				}
+			}
+			return n, tomb, multi
+		}
 	}
-	holdBackground()
-	e, err := openEngine(dir)
-	if err != nil {
-		out("IMPL-ERROR open " + err.Error())
-		return
-	}
-	defer func() { e.Close() }()
 
 	ref := map[string][]byte{} // latest acknowledged write per key (nil = deleted)
 	oracleOK := true
@@ -200,33 +240,12 @@ func runC05(c *Case, out func(string)) {
 		}
 		s.cur = it
 		// layer statistics for META
-		n, tomb := 0, 0
-		seen := map[string]int{}
-		for _, l := range e.VerifStorage().VerifLayers() {
-			if len(l.Entries) > 0 {
-				n++
-			}
-			ks := map[string]bool{}
-			for _, en := range l.Entries {
-				ks[string(en.Key)] = true
-				if en.Tombstone {
-					tomb++
-				}
-			}
-			for k := range ks {
-				seen[k]++
-			}
-		}
+		n, tomb, multi := layerStats()
 		if n > maxSources {
 			maxSources = n
 		}
 		nTomb = tomb
-		nMultiLayerKeys = 0
-		for _, cnt := range seen {
-			if cnt > 1 {
-				nMultiLayerKeys++
-			}
-		}
+		nMultiLayerKeys = multi
 		return true
 	}
 	wrap := func(s *c05Section, it iterator.Iterator) iterator.Iterator {
@@ -278,6 +297,9 @@ func runC05(c *Case, out func(string)) {
 		where := fmt.Sprintf("C05 %s: %s", desc(s), op)
 		if target != nil {
 			where += " " + render(target)
+		}
+		if (ret == "1") != valid && ret != "-" {
+			fail(fmt.Sprintf("%s returned %s but Valid() is %v afterwards", where, ret, valid))
 		}
 		var lo *string
 		loIncl := false
@@ -333,8 +355,31 @@ func runC05(c *Case, out func(string)) {
 		}
 	}
 
-	for i := 0; i < len(c.Lines); i++ {
+	first := 0
+	if stackMode {
+		stack, first, err = buildC05Stack(c, dir)
+		if err != nil {
+			out("IMPL-ERROR stack " + err.Error())
+			return
+		}
+		defer stack.close()
+		for k, v := range stack.ref {
+			ref[k] = v
+		}
+		getIter = func() (iterator.Iterator, error) {
+			return engiter.NewFactory().CreateIterator(stack.mems, stack.ssts), nil
+		}
+		getRange = func(lo, hi []byte) (iterator.Iterator, error) {
+			return engiter.NewFactory().CreateRangeIterator(stack.mems, stack.ssts, lo, hi), nil
+		}
+		layerStats = func() (int, int, int) { return stack.nonEmpty, stack.tombstones, stack.multi }
+	}
+	for i := first; i < len(c.Lines); i++ {
 		l := c.Lines[i]
+		if stackMode && (l[0] != "iter" && l[0] != "filt" && l[0] != "first" && l[0] != "last" && l[0] != "seek" && l[0] != "next" && l[0] != "scan") {
+			out("IMPL-ERROR bad line in stack case " + strings.Join(l, " "))
+			return
+		}
 		switch l[0] {
 		case "put":
 			endSection()
@@ -427,7 +472,7 @@ func runC05(c *Case, out func(string)) {
 			if l[1] == "full" {
 				s.kind = "full"
 				s.mk = func() (iterator.Iterator, error) {
-					it, err := e.GetIterator()
+					it, err := getIter()
 					if err != nil {
 						return nil, err
 					}
@@ -437,7 +482,7 @@ func runC05(c *Case, out func(string)) {
 				s.kind = "range"
 				s.lo, s.hi = optTok(l[2]), optTok(l[3])
 				s.mk = func() (iterator.Iterator, error) {
-					it, err := e.GetRangeIterator(s.lo, s.hi)
+					it, err := getRange(s.lo, s.hi)
 					if err != nil {
 						return nil, err
 					}
@@ -610,6 +655,158 @@ func runC05(c *Case, out func(string)) {
 	}
 	out(fmt.Sprintf("META sections=%d iterops=%d scans=%d sources=%d live=%d multilayer_keys=%d tombstones=%d nontrivial=%d",
 		nSections, nOps, nScans, maxSources, nLive, nMultiLayerKeys, nTomb, nt))
+}
+
+// ---- explicit layer stacks (header stack=1): the iterator factory over hand-built memtables
+// and SSTables, so that tables are NOT shadowed by memtables (which engine programs cannot
+// produce: the memtables of a running engine always hold the whole history).
+// Lines before the first "iter": "mem" starts a memtable (the first is the active one, the
+// following ones are immutable, newest first) with "e K V SEQ" / "t K SEQ" inserts in the
+// given order; "sst" starts an SSTable (listed oldest first, like Manager.sstables) with
+// "e K V" / "t K" entries in ascending key order.
+type c05Stack struct {
+	mems                         []*memtable.MemTable
+	ssts                         []*sstable.Reader
+	ref                          map[string][]byte
+	nonEmpty, tombstones, multi  int
+}
+
+func (st *c05Stack) close() {
+	for _, r := range st.ssts {
+		r.Close()
+	}
+}
+
+func buildC05Stack(c *Case, dir string) (*c05Stack, int, error) {
+	st := &c05Stack{ref: map[string][]byte{}}
+	type ent struct {
+		k, v []byte
+		del  bool
+		seq  uint64
+	}
+	type layer struct {
+		mem  bool
+		ents []ent
+	}
+	var layers []*layer
+	i := 0
+	for ; i < len(c.Lines); i++ {
+		l := c.Lines[i]
+		if l[0] == "iter" {
+			break
+		}
+		switch l[0] {
+		case "mem":
+			layers = append(layers, &layer{mem: true})
+		case "sst":
+			layers = append(layers, &layer{})
+		case "e", "t":
+			if len(layers) == 0 {
+				return nil, 0, fmt.Errorf("entry before a layer")
+			}
+			cur := layers[len(layers)-1]
+			en := ent{k: tok(l[1]), del: l[0] == "t"}
+			rest := l[2:]
+			if !en.del {
+				en.v = tok(l[2])
+				rest = l[3:]
+			}
+			if cur.mem {
+				en.seq = parseNum(rest[0])
+			}
+			cur.ents = append(cur.ents, en)
+		default:
+			return nil, 0, fmt.Errorf("bad stack line %v", l)
+		}
+	}
+	// build; precedence order: memtables as listed, then SSTables from the last listed to the first
+	var order []*layer
+	nmem := 0
+	for _, ly := range layers {
+		if ly.mem {
+			m := memtable.NewMemTable()
+			for _, en := range ly.ents {
+				if en.del {
+					m.Delete(en.k, en.seq)
+				} else {
+					m.Put(en.k, en.v, en.seq)
+				}
+			}
+			if nmem > 0 {
+				m.SetImmutable()
+			}
+			nmem++
+			st.mems = append(st.mems, m)
+			order = append(order, ly)
+		}
+	}
+	var sstLayers []*layer
+	for n, ly := range layers {
+		if ly.mem {
+			continue
+		}
+		path := fmt.Sprintf("%s/t%03d.sst", dir, n)
+		w, err := sstable.NewWriter(path)
+		if err != nil {
+			return nil, 0, err
+		}
+		for _, en := range ly.ents {
+			if en.del {
+				err = w.AddTombstone(en.k)
+			} else {
+				err = w.Add(en.k, append([]byte{}, en.v...))
+			}
+			if err != nil {
+				return nil, 0, err
+			}
+		}
+		if err := w.Finish(); err != nil {
+			return nil, 0, err
+		}
+		r, err := sstable.OpenReader(path)
+		if err != nil {
+			return nil, 0, err
+		}
+		st.ssts = append(st.ssts, r)
+		sstLayers = append(sstLayers, ly)
+	}
+	for j := len(sstLayers) - 1; j >= 0; j-- {
+		order = append(order, sstLayers[j])
+	}
+	// reference: the first layer (in precedence order) that has the key decides; inside a
+	// memtable the greatest sequence number, among equal numbers the latest insert
+	seen := map[string]int{}
+	for _, ly := range order {
+		if len(ly.ents) > 0 {
+			st.nonEmpty++
+		}
+		best := map[string]ent{}
+		for _, en := range ly.ents {
+			if b, ok := best[string(en.k)]; !ok || !ly.mem || en.seq >= b.seq {
+				best[string(en.k)] = en
+			}
+			if en.del {
+				st.tombstones++
+			}
+		}
+		for k, en := range best {
+			seen[k]++
+			if _, ok := st.ref[k]; ok {
+				continue
+			}
+			if en.del {
+				st.ref[k] = nil
+			} else {
+				st.ref[k] = append([]byte{}, en.v...)
+			}
+		}
+	}
+	for _, n := range seen {
+		if n > 1 {
+			st.multi++
+		}
+	}
+	return st, i, nil
 }
 
 func b01(b bool) string {
@@ -869,10 +1066,18 @@ func c05Bops(w *bufio.Writer, r *rand.Rand, n, nkeys int) {
 	}
 }
 
-func c05Script(w *bufio.Writer, r *rand.Rand, nkeys int) {
+func c05StackScript(w *bufio.Writer, r *rand.Rand, nkeys int) { c05ScriptK(w, r, nkeys, false) }
+
+func c05Script(w *bufio.Writer, r *rand.Rand, nkeys int) { c05ScriptK(w, r, nkeys, true) }
+
+func c05ScriptK(w *bufio.Writer, r *rand.Rand, nkeys int, tx bool) {
 	// section
 	filtOK := true
-	switch pick(r, 3, 4, 2, 3) {
+	txw := 0
+	if tx {
+		txw = 1
+	}
+	switch pick(r, 3, 4, 2*txw, 3*txw) {
 	case 0:
 		fmt.Fprintf(w, "iter full\n")
 	case 1:
@@ -955,6 +1160,46 @@ func genC05(w *bufio.Writer, seed int64, n int, tier string) {
 				default:
 					fmt.Fprintf(w, "flush\n")
 				}
+			}
+			fmt.Fprintf(w, "end\n")
+			continue
+		}
+		if ci%10 == 3 {
+			// explicit layer stack: tables that no memtable shadows
+			fmt.Fprintf(w, "case %s stack=1\n", id)
+			nkeys := 3 + r.Intn(10)
+			for m := 0; m < 1+r.Intn(3); m++ {
+				fmt.Fprintf(w, "mem\n")
+				for j := 0; j < r.Intn(9); j++ {
+					if r.Intn(4) == 0 {
+						fmt.Fprintf(w, "t %s %d\n", mkTok(c05Key(r, nkeys)), 1+r.Intn(60))
+					} else {
+						fmt.Fprintf(w, "e %s %s %d\n", mkTok(c05Key(r, nkeys)), c05Val(r), 1+r.Intn(60))
+					}
+				}
+			}
+			for t := 0; t < r.Intn(5); t++ {
+				fmt.Fprintf(w, "sst\n")
+				var ks []string
+				seen := map[string]bool{}
+				for j := 0; j < 1+r.Intn(8); j++ {
+					k := string(c05Key(r, nkeys+2))
+					if !seen[k] {
+						seen[k] = true
+						ks = append(ks, k)
+					}
+				}
+				sort.Strings(ks)
+				for _, k := range ks {
+					if r.Intn(4) == 0 {
+						fmt.Fprintf(w, "t %s\n", mkTok([]byte(k)))
+					} else {
+						fmt.Fprintf(w, "e %s %s\n", mkTok([]byte(k)), c05Val(r))
+					}
+				}
+			}
+			for j := 0; j < 8; j++ {
+				c05StackScript(w, r, nkeys)
 			}
 			fmt.Fprintf(w, "end\n")
 			continue
